@@ -120,6 +120,8 @@ void FeatureChecker::visitLocation(location_t& location)
  */
 bool FeatureChecker::isRateDisallowedInSymbolic(const expression_t& e)
 {
+    if (e.empty())
+        return false;
     if (e.get_kind() == Constants::EQ) {
         assert(e.get_size() >= 2);
 
@@ -157,12 +159,10 @@ bool FeatureChecker::isRateDisallowedInSymbolic(const expression_t& e)
         return false;
     }
 
-    if (e.get_kind() == Constants::AND) {
-        for (size_t i = 0; i < e.get_size(); ++i) {
-            if (isRateDisallowedInSymbolic(e.get(i)))
-                return true;
-        }
-        return false;
+    // the rate equation may sit in any conjunct, disjunct, implication or quantifier body (forall (i : id_t) c[i]' == 2)
+    for (size_t i = 0; i < e.get_size(); ++i) {
+        if (isRateDisallowedInSymbolic(e.get(i)))
+            return true;
     }
     return false;
 }
